@@ -51,6 +51,8 @@ class Prop(C02):
                 addr_of_tok[o[1][0]] = o[1][1]
             if o[0] == 'ins' and o[8] is not None:
                 lim_of[o[8][1]] = o[8][0]
+            if o[0] == 'drop' and o[3] is not None:
+                addr_of_tok.setdefault(o[3], o[2])
         signalled = set()
         ended = set()            # sessions whose peer was dropped (the counter dies with the session)
         mixed = set()            # peers that had paths of two sessions (Source objects) at once
@@ -61,10 +63,20 @@ class Prop(C02):
                 signalled.add(o[8][1])
             if o[0] == 'drop' and o[1] == 0:
                 ended |= set(t for t, a in addr_of_tok.items() if a == o[2])
+            # a peer has one live session: once a newer Source of the peer acts, the
+            # older sessions (and their counters) are gone
+            cur = o[1][0] if o[0] in ('ins', 'rem') else (o[3] if o[0] == 'drop' and o[3] is not None else None)
+            if cur is not None:
+                a_cur = addr_of_tok.get(cur, cur % 10)
+                ended |= set(t for t, a in addr_of_tok.items() if a == a_cur and t < cur)
             if o[0] in ('ins', 'rem') and k > 0:
                 prev = obs[k - 1][2][1]
                 if any(addr_of_tok.get(e[1]) == o[1][1] and e[1] != o[1][0] for d in prev for e in d[1]):
                     mixed.add(o[1][1])
+            if o[0] == 'drop' and o[3] is not None and k > 0:
+                prev = obs[k - 1][2][1]
+                if any(addr_of_tok.get(e[1]) == o[2] and e[1] != o[3] for d in prev for e in d[1]):
+                    mixed.add(o[2])
             # table totals
             nd = len(dests); npaths = sum(len(d[1]) for d in dests)
             nacc = sum(1 for d in dests for e in d[1] if not e[3])
